@@ -1,7 +1,7 @@
 """C02 — truncate error bound and rank caps (structural clauses)."""
 import ast
 
-from .. import model, paths, rules_formula as F
+from .. import model, paths, specs, rules_formula as F
 from .common import sweep, decided_split, pre, S_RULES, modes_from
 from ..engine import tt_wellformed
 from ..poly import Poly, same as same_poly
@@ -106,35 +106,52 @@ def check(an, rep, tier):
                     'the caller\'s cap %r: for this kind of argument the '
                     'rank limit is silently dropped' % (got, cap))
     F.check_selectors(prog, rep)
-    F.check_rank_formula(prog, rep, 'svd.matrix_svd')
-    F.check_rank_formula(prog, rep, 'svd.matrix_skeleton')
-    # --- P-forward
-    for node, miss in _forwarded(prog, rep, 'transformation.truncate',
-                                 {'matrix_svd', 'matrix_skeleton'}):
-        rep.add('P-forward', 'transformation.truncate',
-                paths.src(prog.func('transformation.truncate').module, node),
-                'ok' if not miss else 'violation',
-                '' if not miss else 'the factorisation does not receive the '
-                'caller\'s %s: the accuracy / rank cap falls back to a default'
-                % miss, line=node.lineno)
-    fn = prog.func('act_many.add_many')
-    # the LAST rounding call of add_many (whether it is returned directly or
-    # through a temporary) receives the caller's e and r
-    tcalls = sorted((c for c in ast.walk(fn.node) if isinstance(c, ast.Call)
-                     and (prog.dotted(c.func) or '').endswith('truncate')),
-                    key=lambda c: c.lineno)
-    if not tcalls:
-        rep.unknown('P-forward', 'act_many.add_many', 'final truncate(Y, e, r)',
-                    'no rounding call found')
-    else:
-        c = tcalls[-1]
-        names = [a.id for a in c.args if isinstance(a, ast.Name)] + \
-            [k.value.id for k in c.keywords if isinstance(k.value, ast.Name)]
-        okf = 'e' in names and 'r' in names
-        rep.add('P-forward', 'act_many.add_many', 'final truncate(Y, e, r)',
-                'ok' if okf else 'violation',
-                '' if okf else 'the final rounding of add_many does not '
-                'receive the caller\'s e and r')
+    F.check_rank_value(an, rep, 'svd.matrix_svd')
+    F.check_rank_value(an, rep, 'svd.matrix_skeleton')
+    # --- P-forward, on the call log of the abstract runs: the accuracy that
+    # reaches every factorisation of the sweep derives from the caller's e (it
+    # is not the callee's default) -- r is covered by P-cap above; add_many
+    # hands its e and r to the final rounding
+    def _is_default(fn_q, par, v):
+        d = prog.func(fn_q).defaults().get(par)
+        return v is not None and v.has_const() and d is not None and \
+            isinstance(d, ast.Constant) and v.c == d.value
+    for r in runs:
+        if r.qualname != 'transformation.truncate' or 'e' not in r.variant:
+            continue
+        for q_, a, _ in r.I.call_log:
+            if q_ not in ('svd.matrix_svd', 'svd.matrix_skeleton'):
+                continue
+            bad = [p for p in ('e', 'r') if _is_default(q_, p, a.get(p))]
+            rep.add('P-forward', 'transformation.truncate', '%s receives the '
+                    'caller\'s accuracy and cap (%s)' % (q_, r.tag()),
+                    'ok' if not bad else 'violation',
+                    '' if not bad else 'the factorisation does not receive '
+                    'the caller\'s %s: the accuracy / rank cap falls back to '
+                    'a default' % bad,
+                    line=prog.func('transformation.truncate').node.lineno,
+                    file=prog.func('transformation.truncate').module.path)
+    for vi, v in enumerate(specs.variants('act_many.add_many')):
+        if 'e' not in v and 'r' not in v:
+            continue
+        for d in ds:
+            r = an.run('act_many.add_many', vi, d)
+            tr = [a for q_, a, _ in r.I.call_log
+                  if q_ == 'transformation.truncate']
+            if not tr:
+                rep.unknown('P-forward', 'act_many.add_many',
+                            'final truncate(Y, e, r) (%s)' % r.tag(),
+                            'no rounding call in the run')
+                continue
+            last = tr[-1]
+            bad = [p for p in ('e', 'r') if p in v and
+                   _is_default('transformation.truncate', p, last.get(p))]
+            rep.add('P-forward', 'act_many.add_many', 'final truncate(Y, e, '
+                    'r) (%s)' % r.tag(), 'ok' if not bad else 'violation',
+                    '' if not bad else 'the final rounding of add_many does '
+                    'not receive the caller\'s %s' % bad,
+                    line=prog.func('act_many.add_many').node.lineno,
+                    file=prog.func('act_many.add_many').module.path)
     # --- O-pivot
     fn = prog.func('transformation.truncate')
     mod = fn.module
@@ -192,10 +209,10 @@ def check(an, rep, tier):
                 if f.module.name in ('transformation', 'act_many', 'svd')}
     _RP.check_param_forwarding(prog, rep, callers=_callers)
     rep.floor('O-sweep', 4, 'sweep typestates')
-    rep.floor('O-gram', 3, 'selectors')
-    rep.floor('U-cmp', 2, 'threshold comparisons')
+    rep.floor('O-gram', 2, 'selectors')
+    rep.floor('U-cmp', 1, 'threshold comparisons (the two factorisations may share one)')
     rep.floor('U-cmp-lg', 1, 'threshold scale in the stabilised mode')
     rep.floor('F-rank', 2, 'rank formulas')
     rep.floor('P-cap', 4, 'cap reaches the factorisations')
-    rep.floor('P-forward', 3, 'forwarded caps')
+    rep.floor('P-forward', 10, 'forwarded accuracy and caps')
     rep.floor('S-ret', 8, 'results')
